@@ -600,7 +600,9 @@ def run(ctx):
         big = [("big.csv", csv_file(rng, 1500 if ctx.tier == "quick" else 20000, "w"), 0o640)]
         scb = Scenario("success:multi-chunk", ["--icsv", "--ojson", "cat"], big, ["Succeeds"])
         expected_transforms(ctx, scb)
-        for p in R.enumerate_crash_points(ctx, scb.files, scb.args, max_points=8 if ctx.tier == "quick" else 80, rng=rng, workers=JOBS, syscalls=["write", "renameat", "close"]):
+        # kill points: the write / rename / close calls of a clean run; the killed runs are traced in full (stat, create, ...) for the acceptor
+        clean_b = R.trace_run(ctx, scb.files, scb.args, syscalls=["write", "renameat", "close"])
+        for p in R.enumerate_crash_points(ctx, scb.files, scb.args, max_points=8 if ctx.tier == "quick" else 80, rng=rng, workers=JOBS, clean=clean_b):
             res = p["result"]
             ctx.count(("big", p["syscall"], p["n"]))
             ctx.dist("kill:multi-chunk")
